@@ -187,6 +187,20 @@ impl<'py> PythonIVP<'py> {
             }
         }
 
+        // Any other array_like (nested lists or tuples, arrays of another dtype): let numpy convert it
+        if let Ok(np) = result.py().import("numpy") {
+            if let Ok(arr) = np.getattr("asarray").and_then(|f| f.call1((result, "float64"))) {
+                if let Ok(res_arr) = arr.extract::<PyReadonlyArray2<Float>>() {
+                    for row in 0..dim {
+                        for col in 0..dim {
+                            j[(row, col)] = res_arr.get([row, col]).copied().unwrap_or(0.0);
+                        }
+                    }
+                    return;
+                }
+            }
+        }
+
         panic!("Jacobian must be a 2D array or sparse matrix (e.g. numpy array or scipy sparse matrix)");
     }
 
